@@ -66,6 +66,14 @@ def raised_name(stmt):
     return dotted(exc) or src(exc)
 
 
+def _strip_not(test):
+    pos = True
+    while isinstance(test, ast.UnaryOp) and isinstance(test.op, ast.Not):
+        test = test.operand
+        pos = not pos
+    return test, pos
+
+
 class Node:
     __slots__ = ('idx', 'kind', 'ast', 'succ', 'pred', 'owner')
 
@@ -153,27 +161,32 @@ class CFG:
 
     def _stmt(self, stmt, frontier, ctx):
         if isinstance(stmt, ast.If):
-            cond = self._new('cond', stmt.test, stmt)
+            # "if not X" is the cond node X with the edge labels exchanged: rules never see the spelling of a negation
+            (test, pos) = _strip_not(stmt.test)
+            cond = self._new('cond', test, stmt)
             self._by_ast.setdefault(id(stmt), cond)
+            self._by_ast.setdefault(id(stmt.test), cond)
             self._join(frontier, cond)
             self._maybe_exc(cond, stmt.test, ctx)
-            out = self._seq(stmt.body, [(cond, True)], ctx)
-            out += self._seq(stmt.orelse, [(cond, False)], ctx) if stmt.orelse else [(cond, False)]
+            out = self._seq(stmt.body, [(cond, pos)], ctx)
+            out += self._seq(stmt.orelse, [(cond, not pos)], ctx) if stmt.orelse else [(cond, not pos)]
             return out
         if isinstance(stmt, ast.While):
-            cond = self._new('cond', stmt.test, stmt)
+            (test, pos) = _strip_not(stmt.test)
+            cond = self._new('cond', test, stmt)
             self._by_ast.setdefault(id(stmt), cond)
+            self._by_ast.setdefault(id(stmt.test), cond)
             self._join(frontier, cond)
             self._maybe_exc(cond, stmt.test, ctx)
             loop = _Ctx(self, ctx)
             loop.breaks = []
             loop.cont = cond
-            body_out = self._seq(stmt.body, [(cond, True)], loop)
+            body_out = self._seq(stmt.body, [(cond, pos)], loop)
             self._join(body_out, cond)
             out = []
             always = isinstance(stmt.test, ast.Constant) and bool(stmt.test.value)
             if not always:
-                out = self._seq(stmt.orelse, [(cond, False)], ctx) if stmt.orelse else [(cond, False)]
+                out = self._seq(stmt.orelse, [(cond, not pos)], ctx) if stmt.orelse else [(cond, not pos)]
             return out + loop.breaks
         if isinstance(stmt, (ast.For, ast.AsyncFor)):
             cond = self._new('cond', stmt.iter, stmt)
